@@ -54,6 +54,7 @@ typedef struct {
 	size_t   step;
 	char    *cuts;
 	char     mode;
+	bool     prewritten; // the peer wrote this frame together with the tail of its handshake
 	char     res[2 * HEXLIMIT + 96]; // result, written by the observing side only
 	char     err[40];                // failure of the nng-side sender thread
 } mspec;
@@ -70,6 +71,7 @@ typedef struct {
 	size_t   cpal[32];
 	size_t   ncpal;
 	size_t   strip;
+	bool     duplex; // n2n: both directions travel at the same time
 	mspec    m[MAXMSGS];
 	int      nm;
 } tcase;
@@ -385,8 +387,35 @@ run_peer(tcase *tc, char *hsout, size_t hsoutsz, char *why, size_t whysz)
 			goto out;
 		}
 	}
-	// negotiation: ours is cut after (seed mod 8) bytes
-	if (rp_handshake(fd, peerproto, (unsigned) (tc->cseed % 8), &got, theirs, TMO) != 0) {
+	// negotiation: ours is cut after (seed mod 8) bytes.  EARLY DATA (every third case whose first message is an
+	// uncut incoming one): the peer writes the first piece of its handshake, pauses, and writes the rest of the
+	// handshake TOGETHER with the whole first frame in one write - the bytes of the first message are already
+	// there when nng reads the remainder of the handshake
+	if (tc->nm > 0 && tc->m[0].dir == 'i' && tc->m[0].mode == 'b' && strcmp(tc->m[0].cuts, "-") == 0 && tc->cseed % 8 != 0 &&
+	    tc->cseed % 3 == 0 && tc->m[0].hlen + tc->m[0].blen <= 4096) {
+		uint8_t  ours[8];
+		size_t   flen, cut = (size_t) (tc->cseed % 8);
+		uint8_t *f   = rp_frame(kind, tc->m[0].hdr, tc->m[0].hlen, tc->m[0].body, tc->m[0].blen, &flen);
+		uint8_t *buf = malloc(8 + flen);
+		rp_handshake_bytes(peerproto, ours);
+		memcpy(buf, ours + cut, 8 - cut);
+		memcpy(buf + 8 - cut, f, flen);
+		free(f);
+		if (rp_write_all(fd, ours, cut, TMO) != 0) {
+			free(buf);
+			snprintf(why, whysz, "handshake-%d", errno);
+			goto out;
+		}
+		usleep(30000);
+		if (rp_write_all(fd, buf, 8 - cut + flen, TMO) != 0 || rp_read_exact(fd, theirs, 8, 0, TMO) != 0) {
+			free(buf);
+			snprintf(why, whysz, "handshake-%d", errno);
+			goto out;
+		}
+		free(buf);
+		got               = (uint16_t) ((theirs[4] << 8) | theirs[5]);
+		tc->m[0].prewritten = true;
+	} else if (rp_handshake(fd, peerproto, (unsigned) (tc->cseed % 8), &got, theirs, TMO) != 0) {
 		snprintf(why, whysz, "handshake-%d", errno);
 		goto out;
 	}
@@ -449,7 +478,7 @@ run_peer(tcase *tc, char *hsout, size_t hsoutsz, char *why, size_t whysz)
 					free(pl2);
 				}
 			} else {
-				if (peer_write_frame(fd, kind, m) != 0) {
+				if (!m->prewritten && peer_write_frame(fd, kind, m) != 0) {
 					dead = true;
 				}
 			}
@@ -548,6 +577,47 @@ run_n2n(tcase *tc, char *why, size_t whysz)
 	}
 	if (!pipewait_wait(&pa, 1, TMO) || !pipewait_wait(&pb, 1, TMO)) {
 		snprintf(why, whysz, "no-pipe");
+		goto out;
+	}
+	if (tc->duplex) {
+		// DUPLEX: all a-messages (A -> B) and all b-messages (B -> A) travel at the same time, so that on every
+		// connection sends start while incoming frames are half read (with the clamp cutting the reads)
+		mspec    *txm[2], *rxm[2];
+		int       cnt[2] = { 0, 0 }, k2[2] = { 0, 0 };
+		phase     ph[4];
+		pthread_t th[4];
+		for (int i = 0; i < tc->nm; i++) {
+			cnt[tc->m[i].dir == 'b']++;
+		}
+		for (int d = 0; d < 2; d++) {
+			txm[d] = calloc((size_t) cnt[d] + 1, sizeof(mspec));
+			rxm[d] = calloc((size_t) cnt[d] + 1, sizeof(mspec));
+		}
+		for (int i = 0; i < tc->nm; i++) {
+			int d             = tc->m[i].dir == 'b';
+			txm[d][k2[d]++] = tc->m[i];
+		}
+		for (int d = 0; d < 2; d++) {
+			ph[2 * d]     = (phase){ .s = d ? b : a, .m = txm[d], .n = cnt[d], .send = true, .strip = 0 };
+			ph[2 * d + 1] = (phase){ .s = d ? a : b, .m = rxm[d], .n = cnt[d], .send = false, .strip = tc->strip };
+		}
+		for (int t = 0; t < 4; t++) {
+			pthread_create(&th[t], NULL, phase_thread, &ph[t]);
+		}
+		for (int t = 0; t < 4; t++) {
+			pthread_join(th[t], NULL);
+		}
+		k2[0] = k2[1] = 0;
+		for (int i = 0; i < tc->nm; i++) {
+			int d = tc->m[i].dir == 'b';
+			memcpy(tc->m[i].res, rxm[d][k2[d]].res, sizeof(tc->m[i].res));
+			memcpy(tc->m[i].err, txm[d][k2[d]].err, sizeof(tc->m[i].err));
+			k2[d]++;
+		}
+		for (int d = 0; d < 2; d++) {
+			free(txm[d]);
+			free(rxm[d]);
+		}
 		goto out;
 	}
 	for (int i = 0; i < tc->nm;) {
@@ -669,6 +739,8 @@ parse_case(char *line, tcase *tc)
 			tc->rcvmax = strtoull(w + 7, NULL, 10);
 		} else if (strncmp(w, "strip=", 6) == 0) {
 			tc->strip = strtoull(w + 6, NULL, 10);
+		} else if (strcmp(w, "duplex=1") == 0) {
+			tc->duplex = true;
 		} else if (strncmp(w, "clamp=", 6) == 0) {
 			char *q = w + 6;
 			char *a = field(&q, ':'), *b = field(&q, ':'), *c = q;
